@@ -134,7 +134,7 @@ package wal
 //@   modifies cbCount(self)
 
 //@ func (*Replayer).Replay
-//@   props C07 C13 C19
+//@   props C07 C13 C19 C10 C02
 //@   replay wal_model
 //@   bounded wal_model replay after a kill: all programs of <= 3 (thorough: 4) steps over Append/AppendSync/Rotate x 4 record kinds (empty, small, larger than the size limit, larger than the write buffer) x 3 size limits; the directory as left after every step and with the newest file cut at 9 points (thorough: every length) back to the last returned synchronous append; writer creation faults at each rotation
 //@   requires r.walOptions != nil
